@@ -245,6 +245,9 @@ class Builder:
             lines.insert(rng.randrange(1, len(lines) + 1), ('    assert 2 + 2 == 4', ['s', -1]))
         if rng.random() < 0.12:
             lines.append((rng.choice(['   ', ' ', '\t', '    \t ']), 'w'))
+        if rng.random() < 0.12:
+            # peek_whitespace_line and read_next_directive accept a tab as well as a blank
+            lines = [(('\t' + t[4:]) if (sh != 'w' and t.startswith('    ')) else t, sh) for t, sh in lines]
         e = Entry(lines, faults=sorted(faults), tag='xact')
         if not faults:
             self.valid_xacts += 1
@@ -277,7 +280,7 @@ class Builder:
         if k == 0:
             return Entry([('; a comment line', ['i', -1, 0, -1])], tag='dir')
         if k == 1:
-            return Entry([('# another comment', ['i', -1, 0, -1])], tag='dir')
+            return Entry([(rng.choice(['# another comment', '* a starred comment', '| a bar comment', ';; x']), ['i', -1, 0, -1])], tag='dir')
         if k == 2:
             return Entry([('P %s EUR $1.%02d' % (self.date(), rng.randrange(100)), ['i', -1, 0, -1])], tag='dir')
         if k == 3:
@@ -322,7 +325,8 @@ class Builder:
 
     def stray(self):
         n = self.rng.choice([1, 1, 2, 3])
-        lines = [('    Expenses:Food  $%d.00' % (i + 1), ['s', -1]) for i in range(n)]
+        ind = self.rng.choice(['    ', '    ', ' ', '\t'])
+        lines = [('%sExpenses:Food  $%d.00' % (ind, i + 1), ['s', -1]) for i in range(n)]
         return Entry(lines, faults=[K_STRAY], tag='stray')
 
 
@@ -817,6 +821,17 @@ def run(ctx, n_override=None):
     for a in range(0, len(cases), step):
         evaluate(ctx, res, cases[a:a + step], 'c')
     status_table(ctx, res)
+    res.extra['refuted_theorems'] = [dict(
+        theorem='Properties_C12.every_invalid_item_reported_multi_file_refuted',
+        witness='-f a.dat -f b.dat, one unbalanced transaction in each: no message names b.dat',
+        finding='F20-multi-f')]
+    try:
+        gen = open(os.path.join(lib.COQ, 'Gen', 'StatusOfCount.v')).read()
+        res.extra['generated_tables'] = {'Gen/StatusOfCount.v': [l for l in gen.split('\n') if l.startswith('Definition') or 'shape' in l]}
+    except OSError:
+        pass
+    res.notes.append('side observation (C09, not judged here): journal_t::read ends with clear_xdata(), so a balance assertion in a '
+                     'second -f file does not see the postings of the first file; the generator resets its running balance per -f file')
     return res
 
 
